@@ -361,13 +361,13 @@ def kani_group(crate, harnesses, scratch, jobs, tier):
         return res
     res['kani_version'] = js.get('metadata', {}).get('kani_version')
     res['cbmc_version'] = js.get('tools', {}).get('cbmc')
-    stats = {c['harness_id']: c.get('cbmc_stats', {}) for c in js.get('cbmc', [])}
-    errs = {c['harness_id']: c for c in js.get('error_details', [])}
+    stats = {c['harness_id']: (c.get('cbmc_stats') or {}) for c in js.get('cbmc', []) if c.get('harness_id')}
+    errs = {c['harness_id']: c for c in js.get('error_details', []) if c.get('harness_id')}
     for vr in js.get('verification_results', {}).get('results', []):
         hid = vr['harness_id']
         res['harness'][hid] = {
             'status': vr['status'], 'duration_ms': vr.get('duration_ms', 0),
-            'checks': vr.get('checks', []), 'solver_s': stats.get(hid, {}).get('runtime_solver_s', 0),
+            'checks': vr.get('checks') or [], 'solver_s': (stats.get(hid) or {}).get('runtime_solver_s', 0) or 0,
             'error': errs.get(hid, {}),
         }
     res['tail'] = tail
@@ -572,6 +572,31 @@ def main(argv):
         bounds = []
         solver_s = 0.0
         samples = []
+        # a Verus unit that could not be decided (anchor lost, construct outside the subset, resource
+        # limit) hands over to its Kani fallback harnesses: they cannot turn "undecided" into "held",
+        # but a counterexample from them is a verdict
+        fb = []
+        for (u, r) in results['verus']:
+            if r.get('undecided') and u.get('fallback'):
+                for hn in u['fallback']:
+                    h = props.find_harness(hn)
+                    if h and h['name'] not in set(x['name'] for x in kani_hs) and h['name'] not in set(x['name'] for x in fb):
+                        fb.append(h)
+        if fb:
+            if not os.path.exists(os.path.join(scratch, 'repo')):
+                hsnap = os.path.join(scratch, 'harness')
+                if not os.path.exists(hsnap):
+                    shutil.copytree(os.path.join(VERIF, 'kani', 'harness'), hsnap)
+                copy_repo(os.path.join(scratch, 'repo'), harness_dir=hsnap)
+            byc = {}
+            for h in fb:
+                byc.setdefault((h['crate'], tuple(sorted(h.get('flags', [])))), []).append(h)
+            for (crate, _fl), hs in byc.items():
+                try:
+                    results['kani'].append(((crate, hs), kani_group(crate, hs, scratch, 12, tier)))
+                    kani_hs = kani_hs + hs
+                except Exception as e:
+                    undecided.append('fallback kani crashed: %r' % e)
         for (u, r) in results['verus']:
             if r.get('undecided'):
                 undecided.append('verus unit %s: %s' % (u['unit'], r['undecided']))
